@@ -37,22 +37,5 @@ ThmRecompress ==
             out == Apply(RecompressorSteps(src, dst, force), Enc(src, <<"payload">>))
         IN Dec(dst, out) = <<"payload">>
 
-(* ------------------------------- C05 ----------------------------------- *)
-(* transcription of optimize_compression(blob, stored, target) where target *)
-(* = [allowed: set of codecs, goal: "best"|"fast"|"incompressible"]; result *)
-(* = <<blob', codec'>>                                                      *)
-OptimizeImpl(stored, allowed, goal) ==
-    \* returns the codec the body is delivered in, or "fail"
-    IF allowed = {} THEN "fail"
-    ELSE IF goal # "best"
-    THEN \* keep the stored codec when the client accepts it, otherwise decompress / pick what is allowed
-         IF stored \in allowed THEN stored
-         ELSE IF "none" \in allowed THEN "none"
-         ELSE IF "brotli" \in allowed THEN "brotli" ELSE "gzip"
-    ELSE IF "brotli" \in allowed THEN "brotli"
-         ELSE IF "gzip" \in allowed THEN "gzip"
-         ELSE "none"
-
-\* THE PROPERTY for the response encoding: it is one the client listed (identity is always acceptable)
-EncodingAcceptable(enc, accepted) == enc = "none" \/ enc \in accepted
+(* (C05: the transcription of optimize_compression is OptimizeModel in Server.tla, with theorem ThmOptimize.) *)
 =============================================================================
